@@ -600,6 +600,26 @@ def constructed_objects(ctx, report):
                         report.add('C02.R3', '%s@converter[%s]' % (c.resolve('_parse').construct, fld.name),
                                    'the text parsed as %s reaches %s.%s through %s(), which returns undecodable text unchanged; the instance_of validator then '
                                    'raises TypeError inside the generated __init__' % (src.key, k.name, fld.name, fld.converter_node.func.id))
+                # a plain number (parse_numeric without converter) stored in a field whose validator admits instances of an enumeration
+                # only: TypeError inside the generated __init__ for every value that takes this path
+                same_key = [src.op] if src is not None else []
+                if src is not None:
+                    # the key may be read again on another path (``except InvalidValue: parser.parse_numeric('reason', 4)``)
+                    tgt = getattr(src.op, 'target', None)
+                    same_key += [o2 for o2 in getattr(tgt, 'ops', []) if o2 is not src.op and getattr(o2, 'prim', None) == 'parse_numeric' and
+                                 o2.args.get('name') == src.key]
+                if src is not None and any(o2.prim == 'parse_numeric' and (o2.args.get('converter') is None or show(o2.args.get('converter')) in (
+                        'Ext(builtins.int)', 'int')) for o2 in same_key) and \
+                        fld.validator_node is not None and fld.converter_node is None:
+                    wanted = [dotted(a) or ast.unparse(a) for call in ast.walk(fld.validator_node)
+                              if isinstance(call, ast.Call) and ast.unparse(call.func).endswith('instance_of') and 'optional' not in ast.unparse(fld.validator_node)[:40]
+                              for a in call.args if not isinstance(a, (ast.Tuple, ast.List))]
+                    enum_only = [w for w in wanted if model.try_cls(w.split('.')[-1]) is not None and
+                                 getattr(model.try_cls(w.split('.')[-1]), 'enum_members', None) is not None]
+                    if wanted and len(enum_only) == len(wanted):
+                        report.add('C02.R3', '%s@number[%s]' % (c.resolve('_parse').construct, fld.name),
+                                   'the number parsed as %s (no converter) is stored in %s.%s, which admits instances of %s only: the validator raises '
+                                   'TypeError inside the generated __init__' % (src.key, k.name, fld.name, ' / '.join(enum_only)))
                 # a factory that answers with one of several classes (ipaddress.ip_network: IPv4Network or IPv6Network, whichever the text
                 # spells) in front of an instance_of validator that admits fewer: the text of the other family is converted without error
                 # and the validator raises TypeError inside the generated __init__
